@@ -32,10 +32,16 @@ PROPERTY = "C13"
 sys.path.insert(0, os.path.join(vlib.VERIF, "translate"))
 import t_chain  # noqa: E402
 import t_use    # noqa: E402
+import t_adapt  # noqa: E402
 
 TRUSTED = [
-    "translate/t_chain.py, translate/t_use.py (tokeniser + small grammar, report what the source text says; "
-    "self-tested on every run by mutating scratch copies; anything outside the grammar is an error, not a guess)",
+    "translate/t_chain.py, translate/t_use.py, translate/t_adapt.py (tokeniser + small grammar, report what the source "
+    "text says; self-tested on every run by mutating scratch copies; anything outside the grammar is an error or an "
+    "AOpaque node the Coq side cannot discharge, not a guess)",
+    "coq/Chain_Adapt_Model.v: symbolic evaluator for the bodies of the callback adapters (free term model: entry (r,c) "
+    "of the held matrix, column, dot, norm of a difference); tied by the harness calling every adapter directly on "
+    "asymmetric value tables for all ordered pairs, and by the per-call contract check inside every embedding run",
+    "a data iterator is recognised by its declared type name RandomAccessIterator (call-site table of t_adapt.py)",
     "coq/Chain_Model.v: hand-written interpreter for the table language (constructor-initialiser lists in "
     "declaration order, parameter shadowing, member chains on *this, copy construction); tied by the harness",
     "vocabulary fixed by name: withKernel/withDistance/withFeatures, dummy_<k>_callback, eigen_<k>_callback, "
@@ -56,6 +62,9 @@ TRUSTED = [
 
 ASSUMPTIONS = [
     "callbacks are pure functions of their arguments (same values in every call form)",
+    "kernel / distance callback values are ARBITRARY tables (not symmetric, not PSD, not derived from the features) "
+    "in the value-table stream: the property is about callback values, whatever they are; a method may throw or "
+    "return a poor embedding on such input, but every call form must do the same, bit for bit",
     "the universal harness callbacks answer kernel()/distance()/vector()/dimension() whatever their role, so a "
     "mis-routed callback is observed instead of failing to compile",
     "features.dimension() called by the ImplementationBase constructor on a SUPPLIED features callback is not "
@@ -92,8 +101,44 @@ def gen_dataset(rng, kind, n, dim):
             return {"kind": kind, "N": n, "D": dim, "x": [v.hex() for p in pts for v in p]}
 
 
+def add_value_tables(rng, ds):
+    """kernel / distance VALUE TABLES that are NOT symmetric (directed dissimilarities: the cost of a -> b is not the
+    cost of b -> a): the euclidean distance / linear kernel of the samples, every off-diagonal entry perturbed on its
+    own.  Kernel perturbations stay below a quarter of the smallest squared distance, so that
+    K(a,a) - 2 K(a,b) + K(b,b) stays positive (KernelDistance takes its square root)."""
+    n, dim = ds["N"], ds["D"]
+    pts = [[float.fromhex(v) for v in ds["x"][i * dim:(i + 1) * dim]] for i in range(n)]
+    d2 = [[sum((a - b) ** 2 for a, b in zip(pts[i], pts[j])) for j in range(n)] for i in range(n)]
+    mind2 = min(d2[i][j] for i in range(n) for j in range(n) if i != j)
+    ktab, dtab = [], []
+    for i in range(n):
+        for j in range(n):
+            k = sum(a * b for a, b in zip(pts[i], pts[j]))
+            d = d2[i][j] ** 0.5
+            if i != j:
+                k += mind2 * rng.choice([0.0, 0.125, -0.125, 0.0625, -0.0625, 0.1875])
+                d *= rng.choice([1.0, 1.125, 1.25, 1.5, 0.875, 1.0625])
+            ktab.append(k.hex())
+            dtab.append(d.hex())
+    ds["ktab"], ds["dtab"] = ktab, dtab
+    return ds
+
+
+def sub_dataset(ds, m):
+    """the first m samples (and the leading m x m block of the value tables)"""
+    n, dim = ds["N"], ds["D"]
+    small = dict(ds, N=m, x=ds["x"][:m * dim])
+    for t in ("ktab", "dtab"):
+        if t in ds:
+            small[t] = [ds[t][i * n + j] for i in range(m) for j in range(m)]
+    return small
+
+
 def data_line(ds):
-    return "DATA %d %d %s\n" % (ds["N"], ds["D"], " ".join(ds["x"]))
+    s = "DATA %d %d %s\n" % (ds["N"], ds["D"], " ".join(ds["x"]))
+    if "ktab" in ds and "dtab" in ds:
+        s += "KTAB %d %s\nDTAB %d %s\n" % (ds["N"], " ".join(ds["ktab"]), ds["N"], " ".join(ds["dtab"]))
+    return s
 
 
 def default_params(rng, ds, variant):
@@ -160,6 +205,42 @@ def cases_for(method, needs, ds, params, tier, rng):
         for e, entry in enumerate(["range", "using"]):
             if thorough or (e + j + len(o)) % 2 == 0:
                 out.append(make_case(method, "U", o, entry, backs[(e + j) % len(backs)], src, params))
+    if "ktab" in ds:
+        out += table_cases(method, needs, src, params, thorough, j)
+    return out
+
+
+def is_table_case(c):
+    return c.get("back") in ("tab", "pretab")
+
+
+def table_reference(c):
+    """the hand-written callbacks that look the pair up in the value tables, all three attached, embedRange"""
+    r = dict(c)
+    r.update({"fam": "U", "order": "KDF", "entry": "range", "back": "tab"})
+    return r
+
+
+def table_cases(method, needs, src, params, thorough, j):
+    """the VALUE-TABLE stream: kernel(a,b) / distance(a,b) are arbitrary tables (not symmetric, not derived from the
+    features).  Reference: hand-written callbacks returning table[a][b]; compared bit for bit with every way of
+    handing the same tables to tapkee as precomputed matrices (precomputed_*_callback), over shifted indices and
+    over objects, through the chain in several orders and through tapkee::embed directly."""
+    out = [make_case(method, "U", "KDF", "range", "tab", src, params)]
+    exact = [o for o in PARTIAL_ORDERS + FULL_ORDERS if set(o) == set(needs)]
+    for o in exact:
+        for entry in ("range", "using"):
+            out.append(make_case(method, "U", o, entry, "pretab", src, params))
+    full = FULL_ORDERS if thorough else [FULL_ORDERS[j % 6], FULL_ORDERS[(j + 3) % 6]]
+    for i, o in enumerate(full):
+        if o in exact:
+            continue
+        out.append(make_case(method, "U", o, ["using", "range"][i % 2], "pretab", src, params))
+        if thorough:
+            out.append(make_case(method, "U", o, ["range", "using"][i % 2], "pretab", src, params))
+    out.append(make_case(method, "Y", "KDF", "range", "pretab", src, params))
+    out.append(make_case(method, "O", FULL_ORDERS[(j + 1) % 6], "using", "pretab", src, params))
+    out.append(make_case(method, "O", FULL_ORDERS[(j + 4) % 6], "range", "tab", src, params))
     return out
 
 
@@ -182,13 +263,13 @@ def parse_result(line):
             for v in vals[:3]:
                 float.fromhex(v)
             counts = [int(x) for x in cnt.split()]
-            if len(counts) != 13:
+            if len(counts) != NCOUNT:
                 return None
             return {"kind": "OK", "rows": rows, "cols": cols, "hex": " ".join(vals), "counts": counts}
         if kind == "EXC":
             parts = rest.split("|", 2)
             counts = [int(x) for x in parts[1].split()]
-            if len(counts) != 13:
+            if len(counts) != NCOUNT:
                 return None
             return {"kind": "EXC", "type": parts[0].strip(), "msg": parts[2].strip(), "counts": counts}
         if kind in ("NOTBUILT", "BADCASE"):
@@ -198,6 +279,7 @@ def parse_result(line):
     return None
 
 
+NCOUNT = 16        # 12 per-(role, function) counters, obj_as_index, index_as_obj, foreign, adapter_bad
 MAX_CRASHES = 4     # per batch: every crash / hang costs a process restart (and up to `wd` seconds)
 
 
@@ -258,6 +340,56 @@ def run_cases(ctx, exe, ds, cases):
         if x is None:
             results[i] = {"kind": "CRASH", "what": "no output"}
     return results
+
+
+ADAPTER_MEMBERS = ["precomputed_kernel_callback.kernel", "precomputed_distance_callback.distance",
+                   "eigen_kernel_callback.kernel", "eigen_kernel_callback.operator()",
+                   "eigen_distance_callback.distance", "eigen_distance_callback.operator()",
+                   "eigen_features_callback.vector", "eigen_features_callback.dimension"]
+
+
+def probe_adapters(ctx, exe, ds, stats):
+    """every adapter class the library ships, called DIRECTLY for all ordered pairs (a, b) of the data set: the
+    precomputed ones on the asymmetric value tables (the answer must be the table entry for the pair as given), the
+    eigen ones on the data (against hand-written loops when the data are dyadic, operator() against the named member)"""
+    exact = ds["kind"] in ("dyadic", "lattice")
+    r = ctx.run(exe, data_line(ds) + "ADAPT exact=%d\n" % (1 if exact else 0), timeout=60)
+    seen = {}
+    for line in r.out.splitlines():
+        w = line.split()
+        if len(w) >= 4 and w[0] == "A" and w[2].startswith("n=") and w[3].startswith("bad="):
+            try:
+                d = {"n": int(w[2][2:]), "bad": int(w[3][4:])}
+                for kv in w[4:]:
+                    if "=" in kv:
+                        a, b = kv.split("=", 1)
+                        d[a] = b
+                seen[w[1]] = d
+            except ValueError:
+                continue
+    if "AEND" not in r.out or r.rc != 0 or r.timed_out:
+        ctx.violation({"data": ds, "adapt": "*"}, "calling tapkee's callback adapters directly on this data set %s: %s"
+                      % ("hangs" if r.timed_out else "crashes / ends early",
+                         str(r.sanitizer or r.err[-300:] or r.out[-200:])[:400]))
+        return
+    for name in ADAPTER_MEMBERS:
+        d = seen.get(name)
+        if d is None:
+            if "ktab" in ds or not name.startswith("precomputed"):
+                ctx.mismatch({"data": ds, "adapt": name}, "the harness did not probe adapter member " + name)
+            continue
+        stats["adapter_probe_calls"] += d["n"]
+        if d["bad"]:
+            pair = d.get("first", "?")
+            if name.startswith("precomputed"):
+                why = ("%s(a, b) does not return the entry (a, b) of the matrix it was given: %d of %d ordered pairs "
+                       "differ, first (a,b) = (%s): got %s, the supplied matrix holds %s there  [the matrix is a "
+                       "value table that is not symmetric]" % (name, d["bad"], d["n"], pair, d.get("got"), d.get("want")))
+            else:
+                why = ("%s disagrees with %s on %d of %d calls, first at (%s): got %s, want %s"
+                       % (name, "the named member function" if name.endswith("operator()") else
+                          "hand-written loops over the same (dyadic) data", d["bad"], d["n"], pair, d.get("got"), d.get("want")))
+            ctx.violation({"data": ds, "adapt": name, "pair": pair}, why)
 
 
 SUBSETS = ["K", "D", "F", "KD", "KF", "DF", "KDF"]
@@ -355,7 +487,8 @@ def model_summary(ctx, mexe):
     if mexe is None:
         return None
     r = ctx.run(mexe, "SUMMARY\n", timeout=300)
-    s = {"methods": {}, "routes_fail": [], "suff_fail": [], "dispatch_ok": None, "flags": {}, "bad_derefs": []}
+    s = {"methods": {}, "routes_fail": [], "suff_fail": [], "dispatch_ok": None, "flags": {}, "bad_derefs": [],
+         "bad_callsites": [], "bad_adapters": []}
     for line in r.out.splitlines():
         w = line.split()
         if not w:
@@ -376,6 +509,11 @@ def model_summary(ctx, mexe):
                 s["dispatch_ok"] = w[1].endswith("=1")
         elif w[0] == "X":
             s["bad_derefs"].append(line[2:])
+        elif w[0] == "Y":
+            s["bad_callsites"].append(line[2:])
+        elif w[0] == "A" and len(w) == 4:
+            if w[3] == "0":
+                s["bad_adapters"].append("%s.%s" % (w[1], w[2]))
         elif w[0] == "K" and len(w) == 3:
             s.setdefault("classes", {})[w[1]] = w[2] == "1"
     return s
@@ -410,18 +548,34 @@ def replay_obj(ds, c):
     return {"data": ds, "run": c}
 
 
+def reference_for(c):
+    """the call every other call form of the same request is compared with"""
+    if is_table_case(c):
+        return table_reference(c)
+    return make_case(c["m"], "M", "", "range", "eigen", c.get("src", "eigen"),
+                     {k: v for k, v in c.items() if k not in ("m", "fam", "order", "entry", "back", "src")})
+
+
 def judge(ctx, ds, cases, results, needs, model, stats):
     """spec on the implementation's own outputs + model/implementation agreement"""
     ref = {}
-    for c, r in zip(cases, results):
-        if c["fam"] == "M":
-            ref[c["m"]] = r
+    refidx = set()
+    for idx, (c, r) in enumerate(zip(cases, results)):
+        if c["fam"] == "M" and (c["m"], "mat") not in ref:
+            ref[(c["m"], "mat")] = r
+            refidx.add(idx)
+        elif is_table_case(c) and (c["m"], "tab") not in ref and \
+                (c["fam"], c["order"], c["entry"], c["back"]) == ("U", "KDF", "range", "tab"):
+            ref[(c["m"], "tab")] = r
+            refidx.add(idx)
     for idx, (c, r) in enumerate(zip(cases, results)):
         m = c["m"]
         nd = needs.get(m)
-        rf = ref.get(m)
+        tab = is_table_case(c)
+        rf = ref.get((m, "tab" if tab else "mat"))
         if rf is None or nd is None:
             continue
+        refname = ("the hand-written callbacks returning the same table values" if tab else "the matrix form")
         mo = model[idx] if model else None
         supplied = set(KINDS) if c["fam"] in ("M", "E", "X", "Y") else set(c["order"])
         enough = set(nd) <= supplied
@@ -437,27 +591,43 @@ def judge(ctx, ds, cases, results, needs, model, stats):
             if not same_result(r, rf):
                 if r["kind"] == "EXC" and r["type"] == "unsupported_method_error":
                     why = ("%s declares %s; the chain %s supplies them, yet the call throws unsupported_method_error(\"%s\") "
-                           "while the matrix form %s" % (m, nd or "-", tag, r["msg"],
-                                                       "returns an embedding" if rf["kind"] == "OK" else "gives " + str(rf)[:80]))
+                           "while %s %s" % (m, nd or "-", tag, r["msg"], refname,
+                                            "returns an embedding" if rf["kind"] == "OK" else "gives " + str(rf)[:80]))
                 elif r["kind"] == "OK" and rf["kind"] == "OK":
-                    why = ("%s: call form %s gives a different embedding than the matrix form on the same data, "
-                           "parameters and random stream: %s" % (m, tag, first_diff(r, rf)))
+                    why = ("%s: call form %s gives a different embedding than %s on the same data, "
+                           "parameters and random stream: %s" % (m, tag, refname, first_diff(r, rf)))
+                    if tab:
+                        why += ("  [kernel / distance are VALUE TABLES that are not symmetric; back=pretab hands them to "
+                                "tapkee as precomputed matrices, back=tab answers table[a][b] from a hand-written callback]")
                 else:
-                    why = "%s: call form %s ends differently from the matrix form: %s vs %s" % (
-                        m, tag, {k: v for k, v in r.items() if k not in ("hex", "counts")},
+                    why = "%s: call form %s ends differently from %s: %s vs %s" % (
+                        m, tag, refname, {k: v for k, v in r.items() if k not in ("hex", "counts")},
                         {k: v for k, v in rf.items() if k not in ("hex", "counts")})
                 ctx.violation(replay_obj(ds, c), why)
-            elif r["kind"] == "OK":
+            elif r["kind"] == "OK" and idx not in refidx:
                 stats["equal_embeddings"] += 1
                 stats["distinct"].add(hashlib.sha1(json.dumps([ds["x"][:6], c["m"], c["fam"], c["order"], c["entry"],
                                                                 c["back"], c["nm"], c["em"]]).encode()).hexdigest())
         # ---- counters: who was called
         if r["kind"] in ("OK", "EXC") and c["fam"] in ("U", "O", "Y"):
             cnt = r["counts"]
+            stats["callback_calls"] += sum(cnt[:12])
             if cnt[12] != 0:
                 ctx.violation(replay_obj(ds, c), "%s (%s): the library converted a data OBJECT to an index %d times "
                               "(the dereferenced iterator was used as an index, not only handed to callbacks)"
                               % (m, tag, cnt[12]))
+            if cnt[13] != 0:
+                ctx.violation(replay_obj(ds, c), "%s (%s): the library made a data OBJECT out of an integer %d times "
+                              "(a position / loop counter was handed to a callback where the dereferenced iterator "
+                              "belongs)" % (m, tag, cnt[13]))
+            if cnt[14] != 0:
+                ctx.violation(replay_obj(ds, c), "%s (%s): a callback was handed %d time(s) something that is not an "
+                              "element of the sequence [begin, end) given to tapkee (e.g. a position instead of the "
+                              "object at that position)" % (m, tag, cnt[14]))
+            if cnt[15] != 0:
+                ctx.violation(replay_obj(ds, c), "%s (%s): tapkee's precomputed_*_callback answered %d call(s) with a "
+                              "value that is not the entry of the supplied matrix for the pair it was called with"
+                              % (m, tag, cnt[15]))
             for ri, role in enumerate(KINDS):
                 for fi, fn in enumerate(FUNCS):
                     n = cnt[4 * ri + fi]
@@ -526,9 +696,7 @@ class _Probe:
 
 
 def fails_on(ctx, exe, needs, ds, c):
-    refc = make_case(c["m"], "M", "", "range", "eigen", c.get("src", "eigen"),
-                     {k: v for k, v in c.items() if k not in ("m", "fam", "order", "entry", "back", "src")})
-    cases = [refc, c]
+    cases = [reference_for(c), c]
     results = run_cases(ctx, exe, ds, cases)
     probe = _Probe()
     judge(probe, ds, cases, results, needs, None, new_stats())
@@ -542,7 +710,7 @@ def shrink_dataset(ctx, exe, needs, ds, c):
     best = None
     for m in sorted(set([floor, floor + 2, floor + 4, n // 2, (3 * n) // 4])):
         if floor <= m < n:
-            small = dict(ds, N=m, x=ds["x"][:m * dim])
+            small = sub_dataset(ds, m)
             v = fails_on(ctx, exe, needs, small, c)
             if v:
                 best = (small, v[0][1])
@@ -574,7 +742,8 @@ def regenerate(ctx, restore):
     """run both translators on ctx.repo; write coq/gen/*.v when the text differs (the originals are put back at
     the end of the run when the tree under test is not the committed /repo).  Returns dict name->status."""
     status = {}
-    for name, mod, fname in (("t_chain", t_chain, "Chain.v"), ("t_use", t_use, "Uses.v")):
+    for name, mod, fname in (("t_chain", t_chain, "Chain.v"), ("t_use", t_use, "Uses.v"),
+                             ("t_adapt", t_adapt, "ChainAdapters.v")):
         path = os.path.join(vlib.COQ, "gen", fname)
         old = open(path).read() if os.path.exists(path) else None
         try:
@@ -607,7 +776,7 @@ def translator_self_tests(ctx):
     import contextlib
     import io
     ok = True
-    for name, mod in (("t_chain", t_chain), ("t_use", t_use)):
+    for name, mod in (("t_chain", t_chain), ("t_use", t_use), ("t_adapt", t_adapt)):
         buf = io.StringIO()
         try:
             with contextlib.redirect_stdout(buf):
@@ -653,7 +822,7 @@ def plan(ctx, tier, rng, extra_search=False):
             specs = specs[2:]
     out = []
     for kind, n, dim, variant in specs:
-        ds = gen_dataset(rng, kind, n, dim)
+        ds = add_value_tables(rng, gen_dataset(rng, kind, n, dim))
         out.append((ds, variant))
     return out
 
@@ -662,6 +831,7 @@ def evaluate(ctx, exe, mexe, needs, datasets, tier, rng, stats, samples):
     n = 0
     for ds, variant in datasets:
         params = default_params(rng, ds, variant)
+        probe_adapters(ctx, exe, ds, stats)
         cases = []
         for m in METHODS:
             cases += cases_for(m, needs.get(m, ""), ds, params, tier, rng)
@@ -680,16 +850,16 @@ def evaluate(ctx, exe, mexe, needs, datasets, tier, rng, stats, samples):
         stats["datasets"].append({"kind": ds["kind"], "N": ds["N"], "D": ds["D"], "nm": params["nm"], "em": params["em"],
                                   "k": params["k"], "seed": params["seed"]})
         if len(samples) < 6:
-            samples.append({"data": {"kind": ds["kind"], "N": ds["N"], "D": ds["D"], "x": ds["x"][:6] + ["..."]},
-                            "run": cases[len(cases) // 3]})
-            samples.append({"data": {"kind": ds["kind"], "N": ds["N"], "D": ds["D"], "x": ds["x"][:6] + ["..."]},
-                            "run": cases[-1]})
+            brief = {"kind": ds["kind"], "N": ds["N"], "D": ds["D"], "x": ds["x"][:6] + ["..."],
+                     "ktab": ds.get("ktab", [])[:4] + ["..."], "dtab": ds.get("dtab", [])[:4] + ["..."]}
+            samples.append({"data": brief, "run": cases[len(cases) // 3]})
+            samples.append({"data": brief, "run": cases[-1]})
     return n
 
 
 def new_stats():
     return {"outcomes": {}, "equal_embeddings": 0, "distinct": set(), "model_agree": 0, "refused": 0,
-            "dimension_on_undeclared_features": 0, "by_fam": {}, "by_entry": {}, "by_back": {}, "by_order_len": {},
+            "dimension_on_undeclared_features": 0, "callback_calls": 0, "adapter_probe_calls": 0, "by_fam": {}, "by_entry": {}, "by_back": {}, "by_order_len": {},
             "datasets": []}
 
 
@@ -786,9 +956,7 @@ def _run(ctx, restore):
     for name, c in ctx.corpus():
         try:
             ds, case = c["data"], c["run"]
-            cases = [make_case(case["m"], "M", "", "range", "eigen", case.get("src", "eigen"),
-                               {k: v for k, v in case.items() if k not in ("m", "fam", "order", "entry", "back", "src")}),
-                     case]
+            cases = [reference_for(case), case]
             results = run_cases(ctx, exe, ds, cases)
             model = run_model(ctx, mexe, [(x["m"], x["order"], model_entry(x)) for x in cases]) if mexe else None
             judge(ctx, ds, cases, results, needs, model, stats)
@@ -814,7 +982,12 @@ def _run(ctx, restore):
             ctx.note("regenerated tables: sufficiency decider fails for %s order %s entry %s" % (m, o, e))
         for x in summ["bad_derefs"][:8]:
             ctx.note("a data iterator is dereferenced outside a callback argument: " + x[:200])
-        for flag in ("callback_classes_ok", "wrappers_ok", "derefs_ok", "dispatch_ok"):
+        for x in summ["bad_callsites"][:8]:
+            ctx.note("a callback is handed something that is not a dereferenced data iterator: " + x[:200])
+        for x in summ["bad_adapters"][:8]:
+            ctx.note("adapter member %s does not return the supplied value for every argument (decider of "
+                     "Chain_Adapt_Spec false on the regenerated table)" % x)
+        for flag in ("callback_classes_ok", "wrappers_ok", "derefs_ok", "dispatch_ok", "adapters_ok", "callsites_ok"):
             if summ["flags"].get(flag) == "0":
                 ctx.note("regenerated tables: decider %s is false" % flag)
     plans = plan(ctx, ctx.tier, rng)
@@ -896,14 +1069,21 @@ def _replay(ctx, case, restore):
         mexe = ctx.extract()
     except vlib.BuildError:
         pass
+    if "data" in case and "adapt" in case:
+        probe_adapters(ctx, exe, case["data"], new_stats())
+        for cs, why in ctx._violations[:3]:
+            print("  " + why[:400])
+        if ctx.has_violation():
+            print("replay: property C13 FAILS on this data set (adapter called directly)")
+            return 1
+        print("replay: the adapters return the supplied values on this data set")
+        return 0
     if "data" not in case or "run" not in case:
         print("replay: not a C13 call-form case (%s)" % list(case)[:5])
         return 1
     ds, c = case["data"], case["run"]
     needs = impl_needs(ctx, exe)
-    refc = make_case(c["m"], "M", "", "range", "eigen", c.get("src", "eigen"),
-                     {k: v for k, v in c.items() if k not in ("m", "fam", "order", "entry", "back", "src")})
-    cases = [refc, c]
+    cases = [reference_for(c), c]
     results = run_cases(ctx, exe, ds, cases)
     model = run_model(ctx, mexe, [(x["m"], x["order"], model_entry(x)) for x in cases]) if mexe else None
     stats = new_stats()
